@@ -49,7 +49,7 @@ type LockState struct {
 	Writer  bool
 	Readers int32
 	ID      uint32 // assigned lazily, per process; only for traces
-	rd      []int  // ids of the controlled threads holding it in read mode (recursion detection)
+	rd      [8]int32 // ids+1 of the controlled threads holding it in read mode (recursion detection; 0 = free)
 }
 
 // RecursiveReads counts read-lock acquisitions by a thread that already holds the same RW lock in read
@@ -458,16 +458,22 @@ func Acquire(l *LockState, k Kind) {
 	} else {
 		l.Readers++
 		if t != nil {
-			for _, id := range l.rd {
-				if id == t.ID {
+			// (plain array and loops: slice helpers of the runtime are race-instrumented)
+			free := -1
+			for i := 0; i < len(l.rd); i++ {
+				if l.rd[i] == int32(t.ID)+1 {
 					RecursiveReads++
 					if len(RecursiveReadSites) < 20 {
 						RecursiveReadSites[callerSite()]++
 					}
-					break
+				}
+				if l.rd[i] == 0 && free < 0 {
+					free = i
 				}
 			}
-			l.rd = append(l.rd, t.ID)
+			if free >= 0 {
+				l.rd[free] = int32(t.ID) + 1
+			}
 		}
 	}
 }
@@ -500,7 +506,12 @@ func TryAcquire(l *LockState, k Kind) bool {
 	} else {
 		l.Readers++
 		if t := curThread(); t != nil {
-			l.rd = append(l.rd, t.ID)
+			for i := 0; i < len(l.rd); i++ {
+				if l.rd[i] == 0 {
+					l.rd[i] = int32(t.ID) + 1
+					break
+				}
+			}
 		}
 	}
 	return true
@@ -519,14 +530,16 @@ func Release(l *LockState, k Kind) {
 		}
 		l.Readers--
 		if t := curThread(); t != nil {
-			for i := len(l.rd) - 1; i >= 0; i-- {
-				if l.rd[i] == t.ID {
-					l.rd = append(l.rd[:i], l.rd[i+1:]...)
+			for i := 0; i < len(l.rd); i++ {
+				if l.rd[i] == int32(t.ID)+1 {
+					l.rd[i] = 0
 					break
 				}
 			}
 		} else {
-			l.rd = nil
+			for i := 0; i < len(l.rd); i++ {
+				l.rd[i] = 0
+			}
 		}
 	}
 }
